@@ -8,7 +8,7 @@
 //!   svc     = ipc | local        pat = ps | ev | rr | bb        defmode = lib | small1 | small2
 //! output:
 //!   C <svc> pat=<p> nodes=<n> def=<defaults of the QoS fields in verify order>
-//!   O create|open|ooc <node> <req> T=<type details asked for> = ok <digest of static_config()> | err <error> | ex=<does_exist> ls=<static>,<dynamic>,<tags>
+//!   O create|open|ooc <node> <req> T=<type details asked for> = ok <digest of static_config()> | err <error> | ex=<does_exist> li=<services listed> ls=<static>,<dynamic>,<tags>
 //!   O drop <k> = ok | none | ex=.. ls=..            (k-th live handle in creation order)
 //!   O end = ok | ex=.. ls=..                        (after dropping whatever is still held)
 extern crate iceoryx2_bb_loggers;
@@ -65,7 +65,9 @@ impl Env {
     }
 
     /// (static configs, dynamic configs, service tags) present right now
-    fn listing(&self) -> String {
+    /// `full` = also count the dynamic config segments: that means reading /dev/shm, which every other test on the machine
+    /// fills as well, so it is done only where a left-over would show (failed operations, drops, end of the history)
+    fn listing(&self, full: bool) -> String {
         if !self.is_ipc {
             return "-".into();
         }
@@ -87,6 +89,9 @@ impl Env {
             }
         }
         walk(std::path::Path::new(&self.root), &mut st, &mut tg);
+        if !full {
+            return format!("{},-,{}", st, tg);
+        }
         if let Ok(rd) = std::fs::read_dir("/dev/shm") {
             for e in rd.flatten() {
                 let n = e.file_name().to_string_lossy().to_string();
@@ -124,6 +129,7 @@ impl<'a, S: Service + 'static> Runner<'a, S> {
         let h = format!("C {} pat={} nodes={} def={}", self.svc_text, self.pat.text(), nnodes, defaults_text(self.config, self.pat));
         self.line(&h);
         let mut handles: Vec<Handle> = vec![];
+        let mut dirty = self.cases % 32 == 1;      // every 32nd history is scanned in any case
         for op in ops {
             let (head, obs) = match op {
                 Op::Svc(kind, node, req) => {
@@ -146,7 +152,12 @@ impl<'a, S: Service + 'static> Runner<'a, S> {
                     (head, obs)
                 }
             };
-            let l = format!("O {} = {} | ex={} ls={}", head, obs, exists::<S>(&name, self.config, self.pat), self.env.listing());
+            // a failed or panicking create / open_or_create is where a left-over would come from
+            let suspicious = obs == "panic" || (obs.starts_with("err c:") && !obs.contains("AlreadyExists"));
+            if suspicious { dirty = true; }
+            // Service::list is costly: taken where leftovers would show (after every failed or panicking operation, and at the end)
+            let li = if obs.starts_with("ok") || obs == "none" { String::new() } else { format!(" li={}", list_count::<S>(self.config)) };
+            let l = format!("O {} = {} | ex={}{} ls={}", head, obs, exists::<S>(&name, self.config, self.pat), li, self.env.listing(suspicious));
             self.line(&l);
         }
         while !handles.is_empty() {
@@ -154,10 +165,10 @@ impl<'a, S: Service + 'static> Runner<'a, S> {
             let _ = catch_unwind(AssertUnwindSafe(move || drop(hd)));
         }
         let ex = exists::<S>(&name, self.config, self.pat);
-        let ls = self.env.listing();
-        let l = format!("O end = ok | ex={} ls={}", ex, ls);
+        let ls = self.env.listing(dirty);
+        let l = format!("O end = ok | ex={} li={} ls={}", ex, list_count::<S>(self.config), ls);
         self.line(&l);
-        if ex != 0 || (self.env.is_ipc && ls != "0,0,0") {
+        if ex != 0 || (self.env.is_ipc && ls != "0,0,0" && ls != "0,-,0") {
             // something was left behind (it has been reported in the `end` line): do not let it
             // pollute the next history
             self.name_ctr += 1;
@@ -374,6 +385,26 @@ fn run_matrix<S: Service + 'static>(r: &mut Runner<S>, shard: u64, nshards: u64,
         let o = Req::unset(pat);
         cases.push(matrix_case(&c, &o, pat));
         cases.push(vec![Op::Svc(Kind::Create, 0, o.clone()), Op::Svc(Kind::Create, 1, c.clone())]);
+    }
+    // (g) a create that fails AFTER the static config was written must leave nothing behind
+    {
+        let mut bad = Req::unset(pat);
+        let mut good = Req::unset(pat);
+        good.vals[kinds.iter().position(|c| *c == 'n').unwrap()] = Some(2);
+        let plain = Req::unset(pat);
+        let fails = match pat { Pat::Ps => { bad.ty = 5; true } Pat::Bb => { bad.dup_key = true; true } _ => false };
+        if fails {
+            let mut v = vec![Op::Svc(Kind::Create, 0, bad.clone()), Op::Svc(Kind::Open, 1, plain.clone()), Op::Svc(Kind::Open, 1, bad.clone())];
+            if pat != Pat::Bb { v.push(Op::Svc(Kind::Ooc, 2, bad.clone())); } else { v.push(Op::Svc(Kind::Create, 2, bad.clone())); }
+            v.push(Op::Svc(Kind::Create, 0, good.clone()));
+            v.push(Op::Svc(Kind::Open, 1, plain.clone()));
+            v.push(Op::Svc(Kind::Open, 2, good.clone()));
+            v.push(Op::Drop(0)); v.push(Op::Drop(0)); v.push(Op::Drop(0));
+            v.push(Op::Svc(Kind::Open, 1, plain.clone()));
+            cases.push(v);
+            // ... and while the service exists the failing create reports AlreadyExists and changes nothing
+            cases.push(vec![Op::Svc(Kind::Create, 0, plain.clone()), Op::Svc(Kind::Create, 1, bad.clone()), Op::Svc(Kind::Open, 1, plain.clone()), Op::Drop(0), Op::Drop(0), Op::Svc(Kind::Create, 1, bad.clone()), Op::Svc(Kind::Create, 1, good.clone())]);
+        }
     }
     // (f) random full settings
     let mut rng = Rng(seed ^ (pat as u64).wrapping_mul(0x1234567));
